@@ -99,6 +99,22 @@ func symbols(metric string) *sl.Symbols {
 	)
 }
 
+// allSymbols = the main alphabet plus three batches that fail to commit after the index has done
+// its work on the shared cache (used by a small alphabet of their own: the warm answers must stay
+// those of the committed state).
+func allSymbols(metric string) *sl.Symbols {
+	st, _ := vectors(metric)
+	d := func(i int) sl.Doc { return sl.Doc{prop: st[i], "tag": fmt.Sprintf("p%d", i)} }
+	syms := symbols(metric)
+	syms.Add(sl.Op{Name: "ins6 !commit-fails", Kind: "ins", Ids: []int{6}, Docs: []sl.Doc{d(5)}})
+	syms.Add(sl.Op{Name: "upd1(move) !commit-fails", Kind: "upd", Ids: []int{1}, Docs: []sl.Doc{{prop: st[4]}}})
+	syms.Add(sl.Op{Name: "del1 !commit-fails", Kind: "del", Ids: []int{1}})
+	syms.Add(sl.Op{Name: "reopen", Kind: "reopen"})
+	return syms
+}
+
+var failing = []string{"ins1", "ins2,3", "queries", "ins6 !commit-fails", "upd1(move) !commit-fails", "del1 !commit-fails"}
+
 func battery(c cfgT) func(s *sl.ShardSystem) {
 	_, queries := vectors(c.Metric)
 	params := c.Inst.Schema[prop].VectorFlat
@@ -164,7 +180,7 @@ func factory(raw json.RawMessage) (seqx.System, error) {
 	if err != nil {
 		return nil, err
 	}
-	return &sl.ShardSystem{In: in, M: sl.NewModel(c.Inst.Schema, in.Cfg.MaxPointSize), Syms: symbols(c.Metric), Battery: battery(c), KeyFn: sl.FullKey}, nil
+	return &sl.ShardSystem{In: in, M: sl.NewModel(c.Inst.Schema, in.Cfg.MaxPointSize), Syms: allSymbols(c.Metric), Battery: battery(c), KeyFn: sl.FullKey}, nil
 }
 
 type quant struct {
@@ -212,6 +228,17 @@ func master(cfg *harness.Config, rep *harness.Report) {
 			schema := models.IndexSchema{prop: {Type: models.IndexTypeVectorFlat, VectorFlat: &models.IndexVectorFlatParameters{VectorSize: dimOf(c.metric), DistanceMetric: strings.TrimSuffix(c.metric, "96"), Quantizer: c.q.q}}}
 			cc := cfgT{Inst: sl.InstCfg{Backend: "bbolt", CacheSize: cs.size, ReopenEachOp: cs.reopen, Schema: schema, Proxy: true}, Metric: c.metric}
 			specs = append(specs, seqx.Spec{Name: fmt.Sprintf("%s/%s/%s", c.metric, c.q.name, cs.name), Cfg: cc, Alphabet: symbols(c.metric).Refs(), Depth: depth, Dedup: cs.dedup})
+			if cs.name == "warm" && c.q.q != nil {
+				// a cache that was filled by reading from the file (reopen, then a round of queries) and
+				// then lives through further write transactions, which recycle the pages it was read from
+				all := allSymbols(c.metric)
+				pc := cc // (the storage proxy poisons what it handed out when a transaction ends: faultx.Proxy.Poison)
+				specs = append(specs, seqx.Spec{Name: fmt.Sprintf("%s/%s/%s/loaded-from-file-then-written", c.metric, c.q.name, cs.name), Cfg: pc, Alphabet: all.Refs("ins4,5(5 without vector)", "upd1(move)", "upd2(same as 1)", "del2,3", "queries"), Depth: depth,
+					Starts: [][]any{all.Refs("ins1", "ins2,3", "ins6", "reopen", "queries")}})
+			}
+			if cs.name == "warm" && c.metric == models.DistanceEuclidean {
+				specs = append(specs, seqx.Spec{Name: fmt.Sprintf("%s/%s/%s/failing-commits", c.metric, c.q.name, cs.name), Cfg: cc, Alphabet: allSymbols(c.metric).Refs(failing...), Depth: depth})
+			}
 		}
 	}
 	seqx.Explore(cfg, rep, p, specs)
